@@ -176,15 +176,27 @@ def replay_one(behaviour, fam, transport, level, res, casedoc):
     # 'wsgi-unread': the server closes the response iterable without reading it (HEAD request, client gone);
     # 'wsgi-one-chunk': it stops after the first chunk.  The events of the call are the same.
     abort = {'wsgi-unread': 0, 'wsgi-one-chunk': 1}.get(transport)
-    if fam == 'http':
-        env = drv.environ('GET', req[0], req[1], b'', content_type=None, content_length=None)
-        o = drv.call_wsgi(h.wsgi, env, abort_after=abort)
-    elif transport.startswith('wsgi'):
-        w = WsgiApplication(h.app)
-        env = drv.environ('POST', '/', '', req, content_type='text/xml; charset=utf-8')
-        o = drv.call_wsgi(w, env, abort_after=abort)
-    else:
-        o = drv.call_server(h.srv, req)
+    w = WsgiApplication(h.app) if (fam != 'http' and transport.startswith('wsgi')) else None
+
+    def once():
+        if fam == 'http':
+            env = drv.environ('GET', req[0], req[1], b'', content_type=None, content_length=None)
+            return drv.call_wsgi(h.wsgi, env, abort_after=abort)
+        if transport.startswith('wsgi'):
+            env = drv.environ('POST', '/', '', req, content_type='text/xml; charset=utf-8')
+            return drv.call_wsgi(w, env, abort_after=abort)
+        return drv.call_server(h.srv, req)
+    o = once()
+    first = {k: list(v) for k, v in traces.items()}
+    # the same request once more on the same application, managers and listeners: the events of a call are a function of
+    # the call, not of what was delivered (or raised) before
+    for v in traces.values():
+        del v[:]
+    o2 = once()
+    second = {k: list(v) for k, v in traces.items()}
+    for k in traces:
+        traces[k][:] = first[k]
+    traces['second-call'] = second if (o2.escaped is None) else {'escaped': repr(o2.escaped)}
     return traces, o
 
 
@@ -242,6 +254,13 @@ def run_shard(shard, only=None):
                         V('trace-differs', '%s-level|first-diff=%s' % (lvl, (alts[0] + ['<end>'])[first] if first is not None and first < len(alts[0]) + 1 else '?'),
                           '%s-level listeners saw %s, the specification automaton prescribes %s' % (lvl, traces[lvl], alts[0]))
                         break
+                sec = traces.get('second-call')
+                if ok and sec is not None and any(sec.get(l) != traces[l] for l in ('application', 'service', 'method')):
+                    ok = False
+                    lvl = [l for l in ('application', 'service', 'method') if sec.get(l) != traces[l]]
+                    V('second-call-differs', '%s-level' % (lvl[0] if lvl else 'escaped'),
+                      'the same request sent a second time to the same application: listeners saw %s, the first time %s' % (
+                          sec if 'escaped' in sec else sec.get(lvl[0]), None if 'escaped' in sec else traces[lvl[0]]))
                 res['outcomes']['conforms' if ok else 'differs'] = res['outcomes'].get('conforms' if ok else 'differs', 0) + 1
                 if ok:
                     res['nontrivial'] += 1
